@@ -17,10 +17,7 @@ const prelude = `(set-option :smt.mbqi true)
 (declare-fun str_len (Str) Int)
 (declare-const str_empty Str)
 (assert (= (str_len str_empty) 0))
-(assert (forall ((s Str)) (! (>= (str_len s) 0) :pattern ((str_len s)))))
-(assert (forall ((s Str)) (! (=> (= (str_len s) 0) (= s str_empty)) :pattern ((str_len s)))))
 (declare-fun str_concat (Str Str) Str)
-(assert (forall ((a Str) (b Str)) (! (= (str_len (str_concat a b)) (+ (str_len a) (str_len b))) :pattern ((str_concat a b)))))
 (declare-fun str_lt (Str Str) Bool)
 (define-fun iface_nil () Iface (mk_iface 0 0))
 (define-fun slice_nil () Slice (mk_slice 0 0 0 0))
@@ -181,6 +178,8 @@ func heapStable(name string) bool {
 	switch parts[0] {
 	case "H", "E", "P":
 		return stablePkgs[pkgOfKey(parts[1])]
+	case "IT": // ghost iterator state is local to the function
+		return true
 	}
 	return false
 }
